@@ -11,7 +11,7 @@ func init() {
 		Level: "model_checking",
 		Run: func(c *runCtx) (map[string]interface{}, []string, []violation, error) {
 			opts := map[string]interface{}{"import": true, "templates": []string{"e"}, "patterns": []string{"E", "R"}, "max_reorg": 2, "max_queue": 2, "max_height": 6, "no_b": true,
-				"gap": 3, "c_blocks": []string{"pc0", "pc2", "pc4", "sc", "c2a"}}
+				"gap": 3, "c_blocks": []string{"pc0", "pc2", "pc4", "sc", "c2a", "cch"}}
 			depth, dl := 6, 170*time.Second
 			if c.Tier == "thorough" {
 				opts["max_reorg"] = 3
